@@ -48,6 +48,10 @@ def main():
         results = json.load(open(respath))
     for n in names:
         meta = json.load(open(os.path.join(sdir, n, "meta.json")))
+        if meta.get("not_a_violation"):
+            results[n] = {"property": meta["property"], "not_a_violation": meta["not_a_violation"]}
+            print(n, "skipped: not a violation of the property as stated")
+            continue
         if meta.get("neutralized_by"):
             results[n] = {"property": meta["property"], "neutralized_by": meta["neutralized_by"]}
             print(n, "skipped: no longer a behavioural change on the repaired tree")
@@ -72,7 +76,7 @@ def main():
         finally:
             sh("git -C /repo checkout -- .")
     json.dump(results, open(respath, "w"), indent=1, sort_keys=True)
-    missed = [n for n in names if "neutralized_by" not in results[n] and results[n].get("checks", {}).get(results[n].get("property"), {}).get("exit") != 1]
+    missed = [n for n in names if "neutralized_by" not in results[n] and "not_a_violation" not in results[n] and results[n].get("checks", {}).get(results[n].get("property"), {}).get("exit") != 1]
     print("missed by own property's check:", missed)
     return 0
 
